@@ -178,10 +178,11 @@ CLAIMED = {
         category="proof",
         text=("Theorems (Props/C06.v): for every corpus within the limits, both avoid_copies settings and every chain of "
               "valid selections (any key order, repeats, depth), selection succeeds and the view's term frequencies, document "
-              "frequencies, lengths, positions, phrase frequencies (no immediately repeated term) and BM25 scores equal the "
+              "frequencies, lengths, positions, position-ranged term frequencies, phrase frequencies (EVERY term list, "
+              "immediate repetitions included, EVERY position range) and BM25 scores (every query) equal the "
               "parent's answers re-indexed by the composed key, with the parent's corpus statistics (closed; score theorems "
-              "carry the Reals axioms via Flocq). NOT proved: position-ranged tf on views, phrases with immediate "
-              "repetitions, element access, and pandas' key normalisation (replicated with numpy in the harness): decided "
+              "carry the Reals axioms via Flocq). NOT proved: element access and pandas' key normalisation (replicated "
+              "with numpy in the harness): decided "
               "three-way by the check (real arr[key] / take / copy / DataFrame ops followed by every query kind vs model "
               "vs spec; slices of every step sign, masks, int arrays sorted/unsorted/duplicate/negative, depth 1..3)."),
         design_ref="DESIGN.md 7 (C06)",
@@ -226,8 +227,8 @@ CLAIMED = {
         text=("Theorems (Props/C10.v): the model of the pf / pf2 / pf3 phases (shingles, boosts, scatter-add at the rows "
               "with positive query-field score) equals the spec `query-field score plus boost * whole-frame phrase score "
               "of each shingle once; zero stays zero` (generic form: with the premise that scores on the view of matching "
-              "rows equal the whole-frame scores at those rows; C10_indexed_phrase_boosts: premise-free for frames of "
-              "freshly indexed columns whenever no phrase field's term list has an immediately repeated term); every "
+              "rows equal the whole-frame scores at those rows; C10_indexed_phrase_boosts_any_query: premise-free for frames "
+              "of freshly indexed columns, any phrase fields incl. repeated terms); every "
               "adjacent pair / triple is produced exactly once and shorter queries add nothing (closed). The check "
               "compares the real edismax with model and spec incl. multi-field boosts."),
         design_ref="DESIGN.md 7 (C10)",
